@@ -117,6 +117,43 @@ def exec_lattice(item):
                     winner = [lvl for lvl in LEVELS if lvl in assign][-1] if assign else "default"
                     r.violations.append({"key": ("lattice", "effective_value_is_not_the_highest_priority_one", attr if attr in GEN_VALUES else "option", f"set={'+'.join(sorted(assign))}:expected_from={winner}"),
                                          "detail": {"rule": rid, "attr": attr, "config": cfg, "expected": exp, "reported": got, "acted_on": acted}, "item": dict(item, attr=attr, combo=list(combo), group=group)})
+    # a rule that belongs to two groups (case + case::keyword, structure + structure::optional): each group sets a different
+    # attribute, so no priority question arises - both must be in force, whichever group is written first in the file
+    if len(groups) >= 2:
+        g1, g2 = groups[0], groups[-1]
+        for attr in inv["configuration"]:
+            tv = two_values(rid, attr)
+            if tv is None:
+                continue
+            other = "severity" if attr != "severity" else "fixable"
+            if other not in inv["configuration"]:
+                continue
+            ov = GEN_VALUES[other][0]
+            for first, second in ((g1, g2), (g2, g1)):
+                for ga, gb in ((g1, g2), (g2, g1)):
+                    gcfg = {}
+                    for g in (first, second):
+                        gcfg[g] = {attr: tv[0]} if g == ga else {other: ov}
+                    cfg = {"rule": {"group": gcfg}}
+                    oc = copy.copy(cfg0)
+                    oc.dConfig = dict(cfg0.dConfig, **cfg)
+                    rule = cls()
+                    rl.rules = [rule]
+                    r.transitions += 1
+                    try:
+                        _ar.configure_rules(oc, rl, oc.dConfig, 0, path)
+                    except explore.Timeout:
+                        raise
+                    except Exception:  # noqa
+                        continue
+                    fired += 1
+                    if observe(rule, attr) != (tv[0], tv[0]) or observe(rule, other) != (ov, ov):
+                        r.violations.append({"key": ("lattice", "attribute_set_through_one_of_two_groups_of_the_rule_is_not_in_force", attr if attr in GEN_VALUES else "option"),
+                                             "detail": {"rule": rid, "config": cfg, "observed": {attr: observe(rule, attr), other: observe(rule, other)}}, "item": dict(item, attr=attr, two_groups=[first, second, ga])})
+                        break
+                else:
+                    continue
+                break
     # the per-file level with the file named in a non-normalised spelling (the configuration key is matched as written)
     d, b = os.path.split(path)
     for alt in (d + "/./" + b, d + "//" + b, os.path.join(d, "sub", "..", b)):
@@ -261,6 +298,9 @@ def exec_error(item):
     rid = item["rule"]
     cfg = {"rule": {rid: {"disable": True}}} if item["level"] == "rule" else {"file_rules": [{path: {"rule": {rid: {"disable": True}}}}]} if item["level"] == "file_rules" else \
         {"file_list": [{path: {"rule": {rid: {"disable": True}}}}]}
+    if item.get("with_rule_section"):
+        # the bad id sits in a per-file section while the top level has an (unrelated, valid) rule section of its own
+        cfg.setdefault("rule", {})["global"] = {"indent_size": 2}
     cp = os.path.join(d, "err_cfg.json")
     with open(cp, "w") as f:
         json.dump(cfg, f)
@@ -272,9 +312,9 @@ def exec_error(item):
     if exc is not None:
         r.violations.append({"key": ("error", f"traceback:{exc[0]}@{exc[1]}", kind, item["level"]), "detail": {"rule": rid, "message": exc[2]}, "item": item})
     elif not st:
-        r.violations.append({"key": ("error", "bad_rule_id_ignored_exit_0", kind, item["level"]), "detail": {"rule": rid, "stdout": so[:200]}, "item": item})
+        r.violations.append({"key": ("error", "bad_rule_id_ignored_exit_0", kind, item["level"] + ("+rule_section" if item.get("with_rule_section") else "")), "detail": {"rule": rid, "stdout": so[:200]}, "item": item})
     elif "ERROR" not in (so + se) and "Error" not in (so + se):
-        r.violations.append({"key": ("error", "no_configuration_error_message", kind, item["level"]), "detail": {"rule": rid, "stdout": so[:200], "stderr": se[:200]}, "item": item})
+        r.violations.append({"key": ("error", "no_configuration_error_message", kind, item["level"] + ("+rule_section" if item.get("with_rule_section") else "")), "detail": {"rule": rid, "stdout": so[:200], "stderr": se[:200]}, "item": item})
     if kind == "deprecated" and item["level"] == "rule" and rid.startswith("port"):
         r.sample = {"id": item["id"], "exit": st, "message": (so + se).strip().split("\n")[0][:150]}
     return r
@@ -331,6 +371,9 @@ def items(tier):
             out.append({"id": f"error/deprecated/{rid}@{lvl}", "part": "error", "rule": rid, "level": lvl, "kind": "deprecated"})
         for rid in bogus if tier != "quick" or lvl == "rule" else bogus[::6]:
             out.append({"id": f"error/unknown/{rid}@{lvl}", "part": "error", "rule": rid, "level": lvl, "kind": "unknown"})
+        if lvl != "rule":
+            for rid in (bogus if tier != "quick" else bogus[::12]) + (dep if tier != "quick" else dep[::12]):
+                out.append({"id": f"error/{'unknown' if rid in bogus else 'deprecated'}/{rid}@{lvl}+rule_section", "part": "error", "rule": rid, "level": lvl, "kind": "unknown" if rid in bogus else "deprecated", "with_rule_section": True})
     return out
 
 
@@ -342,10 +385,10 @@ def main(tier):
     return report.finish(
         PROP, tier, "exploration", [m], t0,
         "(1) for every one of the " + str(nl) + " live rules and every attribute in its configurable set: all 81 assignments of {unset, v1, v2} to (global, group, rule, per-file file_rules), for the first and "
-        "the last group the rule belongs to, through the real apply_rules.configure_rules on a fresh rule object; observed = get_configuration() (what -rc/-oc print) and the attribute the rule acts on; "
+        "the last group the rule belongs to (and, for rules in two groups, one attribute through each group in both file orders), through the real apply_rules.configure_rules on a fresh rule object; observed = get_configuration() (what -rc/-oc print) and the attribute the rule acts on; "
         "expected = value at the highest-priority level that sets it; two-file splits in both orders through the real config.process_config_file; (2) layered configuration against the single "
         "rule-level configuration with the effective value on the rule's own fixture through the real apply_rules --fix --junit: rule state, violations, fixed text, exit status, JUnit; "
-        "(3) every deprecated id and one unused id per rule family at rule level / file_rules / file_list through the real main(): configuration error, non-zero exit, no traceback; "
+        "(3) every deprecated id and one unused id per rule family at rule level / file_rules / file_list (per-file levels also next to a valid top-level rule section) through the real main(): configuration error, non-zero exit, no traceback; "
         "non-trivial = rules / cases executed",
         ["values v1, v2 come from the documented domains (specs/option_domains.json) and fixed pairs for the generic attributes", "style level is covered by C17 (styles are configuration files applied first)"],
         extra_cov={"configure_calls": m.transitions},
